@@ -55,16 +55,47 @@ Print Assumptions C04_generator_call_transparent_partial.
 (* generator functions: if everything the generator yields / returns and everything that is sent conforms (the checker
    accepts it), the caller of the GeneratorWrapper observes exactly the sequence of results the caller of the undecorated
    generator observes - for every generator body and every sequence of next / send / throw / close operations (induction on
-   the sequence).  Guard `accepts rt None`: an exhausted generator (finding C04-exhausted-generator).  `op_ok` constrains only the
-   values the caller sends; a next() needs nothing (since /repo a25625d: C04_generator_next_with_send_type_repaired). *)
+   the sequence).  Guard `run_fine`: no next() / send() is made after the generator has finished (returned, raised, been closed:
+   g_done) - or the return type accepts the None a finished generator answers with; the complement is the finding
+   C04-exhausted-generator (`C04_exhausted_generator_refuted`).  Generators with a real return value are inside:
+   `C04_generator_with_return_value_transparent`.  `op_ok` constrains only the values the caller sends; a next() needs nothing
+   (since /repo a25625d: C04_generator_next_with_send_type_repaired). *)
 Theorem C04_generator_transparent_partial : forall check yt st rt body ops w,
   (forall h y, body h = GYield y -> g_accepts check yt y) ->
   (forall h r, body h = GReturn r -> g_accepts check rt r) ->
-  g_accepts check rt VNone ->
   Forall (op_ok check st) ops ->
+  run_fine check rt body (w_inner w) ops ->
   fst (w_run check yt st rt body w ops) = map res_of (fst (twin_run body (w_inner w) ops)).
 Proof. intros. now apply gen_transparent. Qed.
 Print Assumptions C04_generator_transparent_partial.
+
+(* closed: the checker model over the regenerated tables (GeneratorWrapper passes no context), hypotheses in terms of conformance
+   (C02 completeness via Proofs/PedanticChecker.checker1_accepts); the guard is the structural one alone: no next() / send() after
+   the generator has finished *)
+Definition conf (a : ann) (v : value) : Prop := supported noctx a = true /\ conforms noctx a v = Must.
+Theorem C04_generator_transparent_closed_partial : forall yt st rt body ops,
+  (forall h y, body h = GYield y -> conf yt y) ->
+  (forall h r, body h = GReturn r -> conf rt r) ->
+  Forall (fun o => match o with OpSend v => conf st v | _ => True end) ops ->
+  live_run body gstate0 ops ->
+  fst (w_run gen_check yt st rt body wstate0 ops) = map res_of (fst (twin_run body gstate0 ops)).
+Proof.
+  intros yt st rt body ops Hy Hr Hs Hl.
+  assert (A : forall a v, conf a v -> g_accepts gen_check a v).
+  { intros a v [H1 H2] tv. now apply checker1_accepts. }
+  apply (gen_transparent gen_check yt st rt body (fun h y E => A _ _ (Hy h y E)) (fun h r E => A _ _ (Hr h r E)) ops wstate0).
+  - eapply Forall_impl; [|exact Hs]. intros [|v|e|] H; simpl; auto.
+  - apply live_run_fine. exact Hl.
+Qed.
+Print Assumptions C04_generator_transparent_closed_partial.
+
+(* a generator with a real return value, Generator[int, None, int]: yield 1; return 5 driven by next(); next() *)
+Example C04_generator_with_return_value_transparent :
+  let body := script_body TPropagate [SYield (VInt 1%Z); SRet (VInt 5%Z)] in
+  live_run body gstate0 [OpNext; OpNext]
+  /\ fst (w_run gen_check AInt ANone AInt body wstate0 [OpNext; OpNext]) = [WValue (VInt 1%Z); WStop (VInt 5%Z)]
+  /\ map res_of (fst (twin_run body gstate0 [OpNext; OpNext])) = [WValue (VInt 1%Z); WStop (VInt 5%Z)].
+Proof. split; [simpl; repeat split; reflexivity|]. split; vm_compute; reflexivity. Qed.
 
 (* the definition of the undecorated twin does not look at the text flags *)
 Definition with_text (f : fn) (t : text_flags) : fn :=
